@@ -231,6 +231,7 @@ func (fr *Frame) builtin(b *ssa.Builtin, c *ssa.CallCommon, resT types.Type, set
 			setRes(&Val{T: fmt.Sprintf("(slen %s)", arg(0).T)})
 		case *types.Map:
 			_, _, cn := g.mapArrNames(u)
+			fr.mapLenFacts(u, arg(0).T, h)
 			setRes(&Val{T: g.define(fr.prefix+"maplen", g.IS(), fmt.Sprintf("(ite (= %s 0) %s (select %s %s))", arg(0).T, g.ilit(0), g.heapArr(h, cn, g.heapSort[cn]), arg(0).T))})
 		case *types.Array:
 			setRes(&Val{T: g.ilit(u.Len())})
@@ -625,4 +626,24 @@ func (fr *Frame) inlineCall(callee *ssa.Function, fc *FuncContract, c *ssa.CallC
 		setRes(&Val{Tup: merged})
 	}
 	return nh
+}
+
+// mapLenFacts: len(m) is the number of keys present: non-negative, positive iff some key is present.
+// True of every real heap, so stated unconditionally.
+func (fr *Frame) mapLenFacts(mt *types.Map, m string, h Heap) {
+	g := fr.g
+	d, _, c := g.mapArrNames(mt)
+	darr := g.heapArr(h, d, g.heapSort[d])
+	carr := g.heapArr(h, c, g.heapSort[c])
+	key := "maplen:" + darr + ":" + carr + ":" + m
+	if g.assumed[key] {
+		return
+	}
+	g.assumed[key] = true
+	card := fmt.Sprintf("(select %s %s)", carr, m)
+	w := g.fresh("mapwitness", g.sortOf(mt.Key()))
+	ks := g.sortOf(mt.Key())
+	g.defs = append(g.defs, g.ile(g.ilit(0), card))
+	g.defs = append(g.defs, fmt.Sprintf("(forall ((k %s)) (! (=> (select (select %s %s) k) %s) :pattern ((select (select %s %s) k))))", ks, darr, m, g.ilt(g.ilit(0), card), darr, m))
+	g.defs = append(g.defs, fmt.Sprintf("(=> %s (select (select %s %s) %s))", g.ilt(g.ilit(0), card), darr, m, w))
 }
